@@ -97,6 +97,24 @@ def run(ctx):
         exps.append(exp)
     units.append((SRC_UN, cfgs))
     oracle.append(exps)
+    # the same operators on LITERAL operands (compile-time folding path), for in-range operands only
+    small = [0, 1, -1, 2, -2, 7, 10, 127, 128, 255, 256, -128]
+    for op in BIN:
+        parts = []
+        exps = {w: b'' for w in ws}
+        for a in small:
+            for b in small:
+                if op in '/%' and b == 0:
+                    continue
+                la = '(%d)' % a if a < 0 else str(a)
+                lb = '(%d)' % b if b < 0 else str(b)
+                e = '(%s %s %s)' % (la, op, lb) if op not in ('and', 'or') else '((%s is bool) %s (%s is bool))' % (la, op, lb)
+                parts.append('write(%s); write(\';\');' % e)
+                for w in ws:
+                    r = spec_bin(op, a, b, w)
+                    exps[w] += ((b'true' if r[1] else b'false') if r[0] == 'bool' else str(r[1]).encode()) + b';'
+        units.append(('empty @is_you() {\n' + '\n'.join(parts) + '\n}\n', [Cfg((), w, 100, False) for w in ws]))
+        oracle.append([exps[w] for w in ws])
     # division/modulo by zero is a fault in every position
     SRC_DZ = 'empty @is_you(int a, int b) { write(a / b); }\n'
     units.append((SRC_DZ, [Cfg(('7', '0'), w, 100, False) for w in ws]))
